@@ -236,4 +236,37 @@ VQ_OP(d_tentative_ns) {
     auto P = co::tentative_prolongation<CrsD>((size_t)n, (size_t)naggr, id, ns, (int)bs);
     return show_crs(*P) + " " + show(ns.B);
 }
+// ---- transfer_operators() WITH a near-null space (model: TentativeQrPolicies.v).  The policies pass
+// min_aggregate = nullspace.cols to the aggregation and call tentative_prolongation (QR<double>, B double) even for the
+// exact value type; on the "dyadic exact" B of tools/props/C04.py no binary64 operation rounds, so P_tent is exact and the
+// smoothing runs in exact arithmetic: outputs are compared byte for byte.  Prints P, R and the coarse near-null space.
+// A trailing token (repaired-tree flag for the model) is ignored here.
+// ns_aggregation A eps_strong eps2 block_size cols B[]
+VQ_OP(ns_aggregation) {
+    auto A = t.crs(); Q eps = t.q(); Q eps2 = t.q(); long bs = t.i(); long cols = t.i(); std::vector<double> B = t.vecT<double>();
+    co::aggregation<Backend>::params prm; prm.aggr.eps_strong = (float)eps; prm.aggr.block_size = (unsigned)bs;
+    prm.nullspace.cols = (int)cols; prm.nullspace.B = B;
+    GLUE(eps2, prm.aggr.eps_strong * prm.aggr.eps_strong);
+    co::aggregation<Backend> c(prm);
+    EMPTY_GUARD( auto pr = c.transfer_operators(*A); return show_pr(pr) + " " + show(c.prm.nullspace.B); )
+}
+// ns_sa A eps_strong eps2 block_size cols relax c23 B[]
+VQ_OP(ns_sa) {
+    auto A = t.crs(); Q eps = t.q(); Q eps2 = t.q(); long bs = t.i(); long cols = t.i(); Q relax = t.q(); Q c23 = t.q();
+    std::vector<double> B = t.vecT<double>();
+    auto prm = sa_params(eps, bs, relax, false); prm.nullspace.cols = (int)cols; prm.nullspace.B = B;
+    GLUE(eps2, prm.aggr.eps_strong * prm.aggr.eps_strong);
+    GLUE(c23, static_cast<Q>(2.0/3));
+    co::smoothed_aggregation<Backend> c(prm);
+    EMPTY_GUARD( auto pr = c.transfer_operators(*A); return show_pr(pr) + " " + show(c.prm.nullspace.B); )
+}
+// ns_emin A eps_strong eps2 block_size cols B[]
+VQ_OP(ns_emin) {
+    auto A = t.crs(); Q eps = t.q(); Q eps2 = t.q(); long bs = t.i(); long cols = t.i(); std::vector<double> B = t.vecT<double>();
+    co::smoothed_aggr_emin<Backend>::params prm; prm.aggr.eps_strong = (float)eps; prm.aggr.block_size = (unsigned)bs;
+    prm.nullspace.cols = (int)cols; prm.nullspace.B = B;
+    GLUE(eps2, prm.aggr.eps_strong * prm.aggr.eps_strong);
+    co::smoothed_aggr_emin<Backend> c(prm);
+    EMPTY_GUARD( auto pr = c.transfer_operators(*A); return show_pr(pr) + " " + show(c.prm.nullspace.B); )
+}
 int main() { vq::registry()["d.tentative_ns"] = op_d_tentative_ns; return vq::driver_main(); }
